@@ -302,8 +302,34 @@ def pairing_twin(kind):
     return make
 
 
+CLIENTS = 'pymodbus.client.sync.'
+
+
+def manager_lemma(E):
+    """the pairing lemmas are about a client whose replies are filed in a DictTransactionManager (one slot per transaction id: a second
+    frame decoded in the same read replaces the first).  Every synchronous client, built by its real constructor with any framing,
+    has exactly that manager, bound to that client"""
+    which = E.choice('client', ['base', 'tcp', 'tcp+framer', 'udp', 'serial'])
+    kind = E.choice('framing', ['socket', 'rtu', 'ascii', 'binary'])
+    if which == 'base':
+        c = E.new(CL.BASE, E.new(F.QUAL[kind], E.opaque('decoder')))
+    elif which == 'tcp':
+        c = E.new(CLIENTS + 'ModbusTcpClient')
+    elif which == 'tcp+framer':
+        c = E.new(CLIENTS + 'ModbusTcpClient', 'peer', 502, E.cls(F.QUAL[kind]))
+    elif which == 'udp':
+        c = E.new(CLIENTS + 'ModbusUdpClient')
+    else:
+        c = E.new(CLIENTS + 'ModbusSerialClient', method=kind if kind != 'socket' else 'rtu')
+    tm = E.get(c, 'transaction')
+    E.prove('manager:replies-are-filed-by-transaction-id(one-slot-per-id)', E.classname(tm) == 'DictTransactionManager')
+    E.prove('manager:bound-to-this-client', E.get(tm, 'client') is c)
+    E.prove('manager:no-reply-slot-to-begin-with', len(E.get(tm, 'transactions')) == 0)
+
+
 def get_units():
-    us = []
+    us = [Unit('%s/manager' % PROP, manager_lemma, [PROP], functions=[CL.BASE + '.__init__', CLIENTS + 'ModbusTcpClient.__init__', CLIENTS + 'ModbusUdpClient.__init__',
+                                                                   CLIENTS + 'ModbusSerialClient.__init__', TMQ + '.__init__'])]
     for kind in ('socket', 'rtu', 'ascii', 'binary'):
         fq = F.QUAL[kind]
         fl = Unit('%s/filter.%s' % (PROP, kind), filter_lemma(kind), [PROP], contracts=CS, loops=F.loop_anns(kind),
